@@ -83,3 +83,16 @@ Print Assumptions C10_stage_ok_means_all_written.
 Theorem C10_stage_exit_by_size : forall s chunks, exit_ok s chunks = exit_ok_by_size s (total chunks).
 Proof. exact exit_ok_is_by_size. Qed.
 Print Assumptions C10_stage_exit_by_size.
+
+(* the file named by -o (model: coq/Model/OutFile.v, os.Create then sequential writes): when the
+   command succeeds the file is exactly the complete output, whatever the path held before *)
+Theorem C10_stage_ok_file_is_output : forall s chunks (p : OutFile.prior),
+  exit_ok s chunks = true -> OutFile.out_file p chunks = concat chunks
+  /\ N.of_nat (length (OutFile.out_file p chunks)) = total chunks.
+Proof. exact stage_ok_file_is_output. Qed.
+Print Assumptions C10_stage_ok_file_is_output.
+
+(* the model of the stagemaker half satisfies the predicate of the cases (exit status and file) *)
+Theorem C10_stage_model : forall c : C10.scase, C10.s_spec c (C10.s_model c) (C10.s_model_len c) = true.
+Proof. exact stage_model_holds. Qed.
+Print Assumptions C10_stage_model.
